@@ -78,6 +78,9 @@ func (w *walker) stmt(s ast.Stmt, st []held) ([]held, bool) {
 			if id, ok := s.Lhs[0].(*ast.Ident); ok {
 				obj := info.ObjectOf(id)
 				rhs := ast.Unparen(s.Rhs[0])
+				if sel, ok := rhs.(*ast.SelectorExpr); ok && sel.Sel.Name == "bind" && obj != nil {
+					bindAlias[obj] = true
+				}
 				if lit, ok := rhs.(*ast.FuncLit); ok && obj != nil {
 					w.localLit[obj] = w.literal(lit, "lit")
 				} else if obj != nil {
@@ -344,6 +347,27 @@ func (w *walker) call(call *ast.CallExpr, st []held) []held {
 		return st
 	}
 	fun := ast.Unparen(call.Fun)
+	// a call on the device's conn.Bind (device.net.bind.M(...), or through a local copy of it):
+	// recorded with the locks held, for the obligation "bind.Send only under net.RLock"
+	if sel, ok := fun.(*ast.SelectorExpr); ok {
+		isBind := false
+		switch x := ast.Unparen(sel.X).(type) {
+		case *ast.SelectorExpr:
+			isBind = x.Sel.Name == "bind"
+		case *ast.Ident:
+			isBind = bindAlias[info.ObjectOf(x)]
+		}
+		if isBind {
+			bc := bindCall{Func: w.f.name, Method: sel.Sel.Name, Pos: fset.Position(call.Pos()).String()}
+			for _, h := range st {
+				bc.Held = append(bc.Held, h.class)
+				if h.class == "Device.net" {
+					bc.HoldsNet = true
+				}
+			}
+			bindCalls = append(bindCalls, bc)
+		}
+	}
 	if lit, ok := fun.(*ast.FuncLit); ok {
 		// immediately invoked literal: inline; its deferred unlocks take effect when it returns
 		sub := &walker{f: w.f, localLit: w.localLit}
@@ -435,6 +459,20 @@ func (w *walker) deferCall(call *ast.CallExpr, st []held) []held {
 
 // ---------------------------------------------------------------- output
 
+// bindCall is one call on the device's conn.Bind value.
+type bindCall struct {
+	Func     string   `json:"func"`
+	Method   string   `json:"method"`
+	Pos      string   `json:"pos"`
+	HoldsNet bool     `json:"holds_net"` // device.net held (any mode) lexically in this function
+	Held     []string `json:"held"`
+}
+
+var (
+	bindCalls []bindCall
+	bindAlias = map[types.Object]bool{}
+)
+
 type outEdge struct {
 	From, To         int
 	FromName, ToName string
@@ -512,7 +550,16 @@ func emit(edges map[edge]witness, outV, outJ string, nerr int, rel func(string) 
 		}
 		sort.Strings(um)
 		j, _ := json.MarshalIndent(map[string]any{"edges": mapped, "self_edges": self, "edges_with_unmapped_locks": other,
-			"unmapped_lock_classes": um, "type_errors_ignored": nerr, "functions": len(all)}, "", " ")
+			"unmapped_lock_classes": um, "type_errors_ignored": nerr, "functions": len(all), "bind_calls": relCalls(rel)}, "", " ")
 		os.WriteFile(outJ, j, 0o644)
 	}
+}
+
+func relCalls(rel func(string) string) []bindCall {
+	out := append([]bindCall{}, bindCalls...)
+	for i := range out {
+		out[i].Pos = rel(out[i].Pos)
+	}
+	sort.Slice(out, func(i, j int) bool { return out[i].Pos < out[j].Pos })
+	return out
 }
